@@ -3,8 +3,8 @@
 Real threads run real renders under the baton scheduler of mc/sched.py; every line that
 touches process-global state of the library is a scheduling point (set recomputed from the
 working tree by an AST scan).  All schedules with <= k preemptions are executed
-(iterative preemption bounding, quick k=2 on the two hot scenarios / k=1 elsewhere;
-thorough k=2 everywhere, k=3 on the hot ones).
+(iterative preemption bounding; quick k=2 on S1, S3, S3b and k=1 elsewhere; thorough k=2
+everywhere and k=3 on S3).
 
 Scenarios (every pair is forced to collide on one piece of shared state):
   S1 provide->consumer in both threads, one consumer raising   (provide registries, error path)
@@ -41,7 +41,9 @@ def _mk(name, template, gcd=None, extra=None):
     from django_components import Component
     from django_components.component_registry import registry
 
-    attrs = {"template": template, "__module__": "verif_c07"}
+    attrs = {"__module__": "verif_c07"}
+    if template is not None:
+        attrs["template"] = template
     if gcd:
         attrs["get_context_data"] = gcd
     attrs.update(extra or {})
@@ -117,7 +119,7 @@ def lru_problems():
 class S1(Scenario):
     name = "S1_provide_error_path"
     bound_quick = 2
-    bound_thorough = 3
+    bound_thorough = 2
 
     def __init__(self):
         from django.template import Template
@@ -184,6 +186,7 @@ class S3(Scenario):
 class S3b(Scenario):
     """component renders (inline templates) through a cache of size 1"""
     name = "S3b_component_templates_small_cache"
+    bound_quick = 2
 
     def __init__(self):
         _mk("s3a", "<p>a{{ x }}</p>", lambda self, **kw: {"x": 1})
@@ -243,6 +246,45 @@ class S4(Scenario):
         return [t1, t2]
 
 
+class S4b(Scenario):
+    """first render of a never-resolved component whose template / js / css live in FILES next to the
+    component module (template_file, js_file, css_file): the lazy loading of the three files is a
+    multi-step update of class-level state that a second first-render can observe half-done"""
+    name = "S4b_first_file_asset_resolution"
+    media = True
+
+    def __init__(self):
+        import os
+        import sys
+        import types
+
+        d = os.path.join(boot.base_dir(), "components", "s4b")
+        os.makedirs(d, exist_ok=True)
+        for fn, content in (("s4b.html", "<div>file-template {{ v }}</div>"), ("s4b.js", "console.log('s4b');"), ("s4b.css", ".s4b{color:red}")):
+            with open(os.path.join(d, fn), "w") as f:
+                f.write(content)
+        mod = types.ModuleType("verif_c07_s4b")
+        mod.__file__ = os.path.join(d, "s4b.py")
+        sys.modules["verif_c07_s4b"] = mod
+
+    def setup(self):
+        from django_components import cache as djc_cache
+
+        self.reset_common()
+        if djc_cache.component_media_cache is not None:
+            djc_cache.component_media_cache.clear()
+        cls = _mk("s4b", None, lambda self, **kw: {"v": 1},
+                  extra={"template_file": "s4b.html", "js_file": "s4b.js", "css_file": "s4b.css", "__module__": "verif_c07_s4b"})
+
+        def t1():
+            return _norm(cls.render()) + "|" + str(cls.js) + "|" + str(cls.css)
+
+        def t2():
+            return str(cls.css) + "|" + _norm(cls.render()) + "|" + str(cls.js)
+
+        return [t1, t2]
+
+
 class S5(Scenario):
     """first use of the lazily created caches and of the component-tag subclass registry"""
     name = "S5_lazy_singletons"
@@ -296,7 +338,7 @@ class S6(Scenario):
         return [_render_tpl(self.ta), _render_tpl(self.tb)]
 
 
-SCENARIOS = {c.name: c for c in (S1, S2, S3, S3b, S4, S5, S6)}
+SCENARIOS = {c.name: c for c in (S1, S2, S3, S3b, S4, S4b, S5, S6)}
 _SC = {}
 _SET = {}
 
@@ -344,29 +386,29 @@ def short_loc(loc):
     return str(loc)
 
 
+def check_execution(name, x, solo, failures, outcomes):
+    problems = []
+    if x.deadlock:
+        problems.append(("deadlock", "deadlock: no enabled thread"))
+    for i, r in enumerate(x.results):
+        if r != solo[i]:
+            problems.append((f"result:{i}:{r[0]}:{r[1] if r[0] == 'err' else ''}", f"thread {i} got {r}, alone it gets {solo[i]}"))
+    for p in x.after:
+        problems.append(("after:" + p.split(":")[0][:40], p))
+    outcomes.add(repr(x.results))
+    if problems and len(failures) < 5:
+        sites = sorted(set(short_loc(l) for l in x.preemption_sites()))
+        for clause, text in problems[:2]:
+            failures.append((f"{name}:{clause}:{'|'.join(sites)}", f"{name}: {text}; preemptions at {sites}",
+                             {"scenario": name, "choices": list(x.choices), "preemption_sites": sites}))
+
+
 def subtree_task(arg):
-    """explore the subtree below one first-level deviation"""
+    """explore the subtree below one deviation prefix"""
     name, prefix, bound, solo = arg
     failures = []
     outcomes = set()
-
-    def check(x):
-        problems = []
-        if x.deadlock:
-            problems.append(("deadlock", "deadlock: no enabled thread"))
-        for i, r in enumerate(x.results):
-            if r != solo[i]:
-                problems.append((f"result:{i}:{r[0]}:{r[1] if r[0] == 'err' else ''}", f"thread {i} got {r}, alone it gets {solo[i]}"))
-        for p in x.after:
-            problems.append(("after:" + p.split(":")[0][:40], p))
-        outcomes.add(repr(x.results))
-        if problems and len(failures) < 5:
-            sites = sorted(set(short_loc(l) for l in x.preemption_sites()))
-            for clause, text in problems[:2]:
-                failures.append((f"{name}:{clause}:{'|'.join(sites)}", f"{name}: {text}; preemptions at {sites}",
-                                 {"scenario": name, "choices": list(x.choices), "preemption_sites": sites}))
-
-    ex = sched.Explorer(lambda p: run_one(name, p), check, bound)
+    ex = sched.Explorer(lambda p: run_one(name, p), lambda x: check_execution(name, x, solo, failures, outcomes), bound)
     ex.explore(prefix)
     return name, ex.executions, ex.transitions, ex.points_max, failures, outcomes
 
@@ -380,19 +422,32 @@ def explore_scenario(name, bound):
     if sig(x1) != sig(x2):
         raise par.HarnessError(f"{name}: the same schedule gave two different executions")
     ex = sched.Explorer(None, None, bound)
-    prefixes = ex.first_level(x1)
-    tasks = [(name, p, bound, solo) for p in prefixes]
-    results = par.run_tasks(subtree_task, tasks) if tasks else []
-    # the default execution itself
-    root = subtree_task((name, None, -1, solo)) if False else None
+    failures = []
+    outcomes = set()
     executions = 1
     transitions = x1.npoints_total
     points_max = len(x1.points)
-    failures = []
-    outcomes = {repr(x1.results)}
-    if x1.results != solo or x1.after or x1.deadlock:
-        failures.append((f"{name}:default-schedule", f"{name}: default schedule gives {x1.results}, solo {solo}, after={x1.after}",
-                         {"scenario": name, "choices": []}))
+    check_execution(name, x1, solo, failures, outcomes)
+    # Sharding: every first deviation from the default schedule is one task - except the free (non-preemptive)
+    # ones such as "start with the other thread", whose subtree is as large as the whole tree: those are
+    # executed here and split once more.
+    tasks = []
+    n_first = 0
+    for p in ex.first_level(x1):
+        n_first += 1
+        i = len(p) - 1
+        free = not x1.points[i].running_enabled
+        if not free:
+            tasks.append((name, p, bound, solo))
+            continue
+        x = run_one(name, p)
+        executions += 1
+        transitions += x.npoints_total
+        points_max = max(points_max, len(x.points))
+        check_execution(name, x, solo, failures, outcomes)
+        for q in ex.first_level(x, len(p)):
+            tasks.append((name, q, bound, solo))
+    results = par.run_tasks(subtree_task, tasks) if tasks else []
     for _, e, t, pm, f, o in results:
         executions += e
         transitions += t
@@ -400,7 +455,7 @@ def explore_scenario(name, bound):
         failures.extend(f)
         outcomes |= o
     return {"executions": executions, "transitions": transitions, "points_max": points_max, "failures": failures,
-            "outcomes": len(outcomes), "solo": solo, "first_level": len(prefixes)}
+            "outcomes": len(outcomes), "solo": solo, "first_level": n_first, "tasks": len(tasks)}
 
 
 def run(ctx):
@@ -413,9 +468,13 @@ def run(ctx):
     ev.extra["shared_globals_found"] = shared
     for name, cls in SCENARIOS.items():
         bound = cls.bound_thorough if thorough else cls.bound_quick
+        import time as _time
+
+        _t0 = _time.time()
         r = explore_scenario(name, bound)
+        r["wall_s"] = round(_time.time() - _t0, 1)
         ev.add_part(name, states=r["executions"], transitions=r["transitions"], validated=r["executions"], nontrivial=r["executions"] - 1,
-                    observed_distinct=r["outcomes"], bound={"preemption_bound_completed": bound, "threads": 2, "points_max": r["points_max"]},
+                    observed_distinct=r["outcomes"], bound={"preemption_bound_completed": bound, "threads": 2, "points_max": r["points_max"], "wall_s": r["wall_s"]},
                     samples=[{"scenario": name, "solo_results": [list(map(str, s))[:2] for s in r["solo"]], "first_level_branches": r["first_level"]}])
         ctx.fnd.merge_reports(r["failures"])
     boot.set_components_setting(template_cache_size=128)
